@@ -395,3 +395,41 @@ PROPS["C09"] = {'assumptions': ['one global clock read by every time.Now() (the 
          'absent from every table; every delivery call returned true iff exactly one recipient got the item. Non-trivial = at least two claims or a '
          'leave or a routing call; distinct by op list.',
  'timeout': {'quick': 1200, 'thorough': 7200}}
+
+
+PROPS["C08"] = {'assumptions': ['registrations of one shard get distinct time stamps (virtual time advances 1 ms before every addLocalShard; the `open!` corpus '
+                 'case shows what equal stamps do)',
+                 'single proxy instance (memberlist off): remote-owner announcements (the second trigger of the watermark replay) are in the model '
+                 '(`replay`) but not driven on the real code',
+                 'GrpcStreamEnv: cancelling a stream context makes Recv fail, the source answers CloseSend with EOF',
+                 'a worker descheduled inside a log call made while no lock is held is a legal schedule (the 13 log points); receivers whose '
+                 'snapshot order (Go map) matters are indistinguishable in the view'],
+ 'engine': 'TestC08',
+ 'lean_modules': ['S2S.Props.C08'],
+ 'required_theorems': ['C08_identity_checked_registries',
+                       'C08_partial_no_crash',
+                       'C08_partial_cleanup_owns',
+                       'C08_partial_all_done_empty',
+                       'C08_partial_exact_at_quiescence',
+                       'C08_partial',
+                       'C08_refuted',
+                       'C08_refuted_unregister_double_delete',
+                       'C08_refuted_replay_send_on_closed_channel',
+                       'C08_refuted_cleanup_check_then_remove',
+                       'C08_refuted_stale_active_receiver',
+                       'C08_refuted_late_start_of_older_incarnation',
+                       'C08_refuted_overlapping_receiver_startups',
+                       'C08_refuted_before_fix'],
+ 'rule': 'traces of registry ops (open/open fail/break/pause/resume/wm/settle/end) against the real shardManagerImpl + two real '
+         'adminServiceProxyServers in routing mode inside a synctest bubble, every trace in a child process (a panic or a stuck goroutine kills only '
+         'the child and is the observation `crashed`/`leak n`). Deterministic scheduler: every proxy goroutine is held at its next schedule point '
+         '(the 4 verifPoint hooks + 13 log statements preceding the registry operations, goroutines attributed to incarnations by creation ancestry) '
+         'and released one at a time; un-paused workers run on newest-incarnation-first, exactly as the Lean driver does. Quick: exhaustive family = '
+         'one source stream with a watermark + two incarnations of one shard, each paused at one of 17 points or none, for every order of '
+         'open/break/resume (107 orders), plus 1500 random traces; thorough: the family also without the watermark holder, and 120000 random traces '
+         "with 3-4 incarnations over two shards, up to two pauses per incarnation, open failures, settles. Every op's canonical view (which "
+         'incarnation each of the five registries holds per shard, held workers, returned handlers, crash, leaked goroutines) is compared with the '
+         'Lean model; the monitor (newest live incarnation registered at quiescence, clean-up steps remove only own entries, nothing left at the '
+         "end, handlers returned, no goroutine left, no crash) runs on the real code's view. A trace is non-trivial when it has more than 3 ops; "
+         'distinct by op list.',
+ 'timeout': {'quick': 900, 'thorough': 7200}}
